@@ -380,6 +380,7 @@ func checkC13(c *Ctx) {
 	pp := m.Main().PkgPath
 	n := ir.NewNormalizer()
 	n.KeepShared = true
+	inlineExpressionFuncs(prog, n)
 	for _, name := range sortedKeys(c13Specs) {
 		spec := c13Specs[name]
 		fn, ok := prog.ByName[name]
